@@ -48,3 +48,38 @@ impl Address {
     pub fn script_pubkey(&self) -> (r: ScriptBuf) ensures r == self.spk() { unimplemented!() }
 }
 } // verus!
+verus! {
+// ---- locktimes and HTLC script parsers (bitcoin / tx.rs script templates; TCB) ----
+#[verifier::external_body] pub struct Height { _p: u8 }
+pub struct Time(pub u32);
+#[verifier::external_body] pub struct HeightError { _p: u8 }
+pub uninterp spec fn height_of(h: Height) -> u32;
+impl Height {
+    #[verifier::external_body]
+    pub fn from_consensus(n: u32) -> (r: Result<Height, HeightError>) ensures r.is_ok() ==> height_of(r->Ok_0) == n { unimplemented!() }
+}
+impl Time { pub const MIN: Time = Time(0); }
+// the locktime is a block height no later than `h` (or not a height-based lock that is still pending)
+pub uninterp spec fn locktime_satisfied_by_height(l: LockTime, h: u32) -> bool;
+pub uninterp spec fn locktime_consensus(l: LockTime) -> u32;
+impl LockTime {
+    #[verifier::external_body]
+    pub fn is_satisfied_by(&self, height: Height, time: Time) -> (r: bool) ensures r == locktime_satisfied_by_height(*self, height_of(height)) { unimplemented!() }
+    #[verifier::external_body]
+    pub fn to_consensus_u32(self) -> (r: u32) ensures r == locktime_consensus(self) { unimplemented!() }
+}
+// script template parsers of tx/tx.rs
+pub uninterp spec fn spec_received_htlc_cltv(script: ScriptBuf, anchors: bool) -> Option<i64>;   // Some: parses as received HTLC
+pub uninterp spec fn spec_is_offered_htlc(script: ScriptBuf, anchors: bool) -> bool;
+#[verifier::external_body]
+pub fn parse_received_htlc_script(script: &ScriptBuf, anchors: bool) -> (r: Result<(Vec<u8>, Vec<u8>, Vec<u8>, Vec<u8>, i64), ValidationError>)
+    ensures r.is_ok() == spec_received_htlc_cltv(*script, anchors).is_some(),
+            r.is_ok() ==> r->Ok_0.4 == spec_received_htlc_cltv(*script, anchors)->Some_0
+{ unimplemented!() }
+#[verifier::external_body]
+pub fn parse_offered_htlc_script(script: &ScriptBuf, anchors: bool) -> (r: Result<(Vec<u8>, Vec<u8>, Vec<u8>, Vec<u8>), ValidationError>)
+    ensures r.is_ok() == spec_is_offered_htlc(*script, anchors)
+{ unimplemented!() }
+#[verifier::external_body]
+pub fn parse_revokeable_redeemscript(script: &ScriptBuf, anchors: bool) -> Result<(Vec<u8>, i64, Vec<u8>), ValidationError> { unimplemented!() }
+} // verus!
